@@ -1704,6 +1704,11 @@ def _cfrc_ext_contact(
     return
 
   geom = contact_geom_in[contactid]
+
+  # skip contacts involving flex (no geom on the flex side)
+  if geom[0] < 0 or geom[1] < 0:
+    return
+
   id1 = geom_bodyid[geom[0]]
   id2 = geom_bodyid[geom[1]]
 
